@@ -6,11 +6,15 @@ use crate::report::{Ctx, Tier};
 use crate::run::run_pure;
 use gamedig_id_tests::{test_game_name_rules, test_single_game_rule};
 
-const TOKENS: [&str; 19] = [
+const TOKENS: [&str; 22] = [
     "Dead", "cells", "of", "The", "S.T.A.L.K.E.R.", "IV", "XIV", "MIX", "2", "16", "2003", "D-Day", "Half-Life", "'44-'45", "Isaac:", "4-Ever",
     // words gluing digits and letters (split by the checker where digits and letters meet)
     "3D", "Quake4", "4x4",
+    // (the last three, bracketed words inside a name and a three-part dashed number, are used with names of up to three
+    // tokens in the quick tier)
+    "(Remastered)", "(1999)", "1-2-3",
 ];
+const CORE_TOKENS: usize = 19;
 // (short bracket contents too: an edition tag can be shorter than a year)
 const BRACKETS: [&str; 8] = ["", " (2003)", " (java)", " (legacy 1.6)", " (HD)", " (II)", " (64)", " (X)"];
 const MODS: [&str; 3] = ["", " - FiveM", " - Multi Theft Auto"];
@@ -106,7 +110,7 @@ fn cases(tier: Tier) -> Vec<(String, What)> {
     let mut v = Vec::new();
     let max = if tier.is_thorough() { 5 } else { 4 };
     for len in 1 ..= max {
-        for first in 0 .. TOKENS.len() {
+        for first in 0 .. if len > 3 && !tier.is_thorough() { CORE_TOKENS } else { TOKENS.len() } {
             v.push((format!("names of {len} tokens starting with {:?}", TOKENS[first]), What::Names { len, first }));
         }
     }
@@ -205,6 +209,7 @@ impl Prop for C20 {
                         }
                     }
                     // next token sequence (first token fixed)
+                    let limit = if len > 3 && !tier.is_thorough() { CORE_TOKENS } else { TOKENS.len() };
                     let mut i = len;
                     loop {
                         if i == 1 {
@@ -212,7 +217,7 @@ impl Prop for C20 {
                         }
                         i -= 1;
                         toks[i] += 1;
-                        if toks[i] < TOKENS.len() {
+                        if toks[i] < limit {
                             break;
                         }
                         toks[i] = 0;
